@@ -953,6 +953,12 @@ func (g *Gen) listTarget(level int) *ast.ExprList {
 	g.feat("list")
 	n := &ast.ExprList{}
 	short := g.O.PHP7 && !g.O.Common && g.flip("shortlist")
+	if level == 0 {
+		g.listShort = short
+		defer func() { g.listShort = false }()
+	} else {
+		short = g.listShort // nested targets use the syntax of the outermost one at every depth
+	}
 	if short {
 		n.OpenBracketTkn, n.CloseBracketTkn = g.ch('['), g.ch(']')
 		g.feat("list-short")
@@ -982,7 +988,10 @@ func (g *Gen) listTarget(level int) *ast.ExprList {
 			if short {
 				g.feat("list-short-hole")
 			}
-		case level < 1 && g.chance(1, 5, "nestedlist"):
+		case level < 3 && g.chance(1, 5-level, "nestedlist"):
+			if level >= 1 {
+				g.feat("list-nested-depth>=2")
+			}
 			if keyed {
 				it.Key, it.DoubleArrowTkn = g.SingleQuoted(), g.tok(token.T_DOUBLE_ARROW, "=>")
 			}
@@ -993,10 +1002,6 @@ func (g *Gen) listTarget(level int) *ast.ExprList {
 				// parser) reads an inner [...] as an array expression whose items are the targets
 				g.feat("list-short-nested")
 				it.Val = &ast.ExprArray{OpenBracketTkn: g.ch('['), Items: l.Items, SeparatorTkns: l.SeparatorTkns, CloseBracketTkn: g.ch(']')}
-			} else if l.ListTkn == nil {
-				g.Feat["list-short"]-- // drawn short, written in the long form of the enclosing list()
-				l.ListTkn = g.kw(token.T_LIST, "list")
-				l.OpenBracketTkn, l.CloseBracketTkn = g.ch('('), g.ch(')')
 			}
 		default:
 			if keyed {
